@@ -881,9 +881,9 @@ Lemma enc_elems_ne ce t o : is_any t = true -> forall chunks parts,
 Proof.
   intros Ha. induction chunks as [|ch chunks IH]; intros parts HF H; cbn [map RoundTrip3.enc_elems_g] in H.
   - inversion H; subst. split; [reflexivity|constructor].
-  - fold (RoundTrip3.enc_elems_g ce t o) in H. inversion HF as [|? ? Hne HF']; subst.
+  - fold (RoundTrip3.enc_elems_g ce t o) in H. inversion HF as [|? ? Hne HF']; subst. unfold encw in H.
     destruct (enc_with ce (enc_content ce) t o (VAny ch)) as [pb|e] eqn:Ep; cbn [bind] in H; [|discriminate].
-    Show. destruct (RoundTrip3.enc_elems_g ce t o (map VAny chunks)) as [ps|e] eqn:Eps; cbn [bind] in H; [|discriminate].
+    destruct (RoundTrip3.enc_elems_g ce t o (map VAny chunks)) as [ps|e] eqn:Eps; cbn [bind] in H; [|discriminate].
     inversion H; subst parts. destruct (IH ps HF' eq_refl) as [HL HP]. split; [cbn [length]; congruence|].
     constructor; [exact (any_enc_ne ce t o ch pb Ha Hne Ep)|exact HP].
 Qed.
@@ -978,7 +978,7 @@ Section OpenList.
       destruct p as [| |dv]; cbn [field_ok]; [exact Hv| |contradiction].
       rewrite Hv. cbn [andb]. destruct (omits ce) eqn:Eo; [|reflexivity]. cbn [negb orb].
       apply (list_fill_nonempty ce ft t chunks Hlist Hany).
-      - intros ->. inversion HF2; subst. exact (Hkept eq_refl Eo eq_refl).
+      - intros ->. inversion HF2; subst. exact (Hkept eq_refl eq_refl eq_refl).
       - eapply Forall_impl; [|exact Htlv]. intros ch Hc. exact (tlv_ne ch Hc). }
     destruct (hole_filled ce cd d T fs oi vs p ft _ Hrec Hoi Hvs Hfield
                 (fun _ => list_fill_anys ft t chunks Hlist Hany Htlv)) as [Hsv Hsa].
@@ -1005,4 +1005,119 @@ Section OpenList.
       destruct (Forall2_in_right _ _ _ HF2 ch Hc) as ([Ti xi] & Hi & He). cbn [fst snd] in He.
       exists Ti, xi, ch. auto.
   Qed.
+  (* (2) resolution on and the governing value mapped to E, all inner values of type E: every element comes back
+         as one of the inner values (same abstract content), read against the mapped type *)
+  Variables (E: ty) (xs: list val).
+  Hypothesis Hsame : inners = map (fun x => (E, x)) xs.
+  Hypothesis Hif01 : d = false -> no_f01 E = true.
+  Hypothesis Hianys : d = false -> forall x, In x xs -> anys_ok E x = true.
+  Hypothesis Hifits : forall x, In x xs -> inner_fits ce d k E x.
+
+  Theorem open_resolved_list : forall dflt override dot,
+    (dot = true \/ override <> []) -> resolve_type override dflt g = Some E ->
+    exists vs' ws,
+      dec_open cd T gi oi dflt override dot wire
+        = Ok (DV (subst_field T oi (retype_list ft E)) (VRec (set_nth oi (Some (VList ws)) vs')), []) /\
+      length ws = length xs /\
+      Forall (fun w => exists x, In x xs /\ aeq (abs E w) (abs E x) /\ (srt = false -> abs E w = abs E x)) ws /\
+      nth gi vs' None = Some g.
+  Proof.
+    intros dflt override dot Hon Hmap.
+    destruct open_first_pass_list as (chunks & v' & HF2 & Htlv & Hdec & Haeq & _).
+    set (P := fun (ch: bytes) (w: val) => exists x, In x xs /\ aeq (abs E w) (abs E x) /\ (srt = false -> abs E w = abs E x)).
+    assert (Hin: forall ch, In ch chunks ->
+               no_eoo_prefix ch = true /\ exists w, decode cd (Some E) ch = Ok (DV E w, []) /\ P ch w).
+    { intros ch Hc. rewrite Forall_forall in Htlv. split; [exact (tlv_no_eoo_prefix ch (Htlv ch Hc))|].
+      destruct (Forall2_in_right _ _ _ HF2 ch Hc) as ([Ti x] & Hi & He). cbn [fst snd] in He.
+      rewrite Forall_forall in Hinners. destruct (Hinners _ Hi) as (H1 & H2 & _ & _). cbn [fst snd] in H1, H2.
+      rewrite Hsame in Hi. apply in_map_iff in Hi. destruct Hi as (x' & Heq & Hx). inversion Heq; subst Ti x'.
+      destruct (codec_rt ce cd d k srt Hmode E x ch H1 Hif01 H2 (fun Hd => Hianys Hd x Hx) He (Hifits x Hx ch He))
+        as (w & Hdw & Haw & Hew).
+      exists w. split; [exact Hdw|]. exists x. auto. }
+    destruct (resolved_list_a cd T fs gi oi p ft t gT pg Hrec Hoi Hgi Hlist Hany Hp Hpg vs g chunks Hg Hgok Hne hole_len_l
+                dflt override dot wire v' Hdec Haeq E P Hon Hmap Hin) as (vs' & ys & ws & _ & _ & HL & Hg' & Hd & HF3).
+    exists vs', ws. split; [exact Hd|]. split; [|split; [|exact Hg']].
+    - rewrite <- (Forall2_len_eq _ _ _ HF3), HL, <- (Forall2_len_eq _ _ _ HF2), Hsame. apply map_length.
+    - clear - HF3. induction HF3 as [|y w ys ws (ch & _ & _ & Hp) _ IH]; constructor; auto.
+  Qed.
+
+  Theorem open_override_wins_list : forall dflt override dot,
+    omap_find g override = Some E ->
+    exists vs' ws,
+      dec_open cd T gi oi dflt override dot wire
+        = Ok (DV (subst_field T oi (retype_list ft E)) (VRec (set_nth oi (Some (VList ws)) vs')), []) /\
+      length ws = length xs /\
+      Forall (fun w => exists x, In x xs /\ aeq (abs E w) (abs E x) /\ (srt = false -> abs E w = abs E x)) ws /\
+      nth gi vs' None = Some g.
+  Proof.
+    intros dflt override dot Hov. apply open_resolved_list.
+    - right. destruct override; [discriminate Hov|discriminate].
+    - apply override_wins. exact Hov.
+  Qed.
 End OpenList.
+
+Print Assumptions codec_rt.
+Print Assumptions definite_encoding_is_tlv.
+Print Assumptions open_raw.
+Print Assumptions open_resolved.
+Print Assumptions open_override_wins.
+Print Assumptions open_raw_list.
+Print Assumptions open_resolved_list.
+Print Assumptions open_override_wins_list.
+
+(* ====================================================================================================== *)
+(* Part 9.  The hypotheses are satisfiable: the theorems applied to concrete records. *)
+
+Ltac vmc := vm_compute; reflexivity.
+
+(* (A) DER encoder, BER decoder; [APPLICATION 3] EXPLICIT SEQUENCE { id OBJECT IDENTIFIER, flag BOOLEAN OPTIONAL,
+       value [0] EXPLICIT ANY DEFINED BY id OPTIONAL }; the inner value is a SEQUENCE { INTEGER, BOOLEAN } *)
+Definition exA_ty : ty :=
+  TExp (mkTag Appl false 3) (TSeq [(Req, TOid); (Opt, TBool); (Opt, TExp (mkTag Ctx false 0) TAny)]).
+Definition exA_in : ty := TSeq [(Req, TInt); (Req, TBool)].
+Definition exA_map : omap := [(VOid [1;3;6;1;1], TStr 12); (VOid [1;3;6;1;2], exA_in)].
+Definition exA_wire : bytes := [99;18;48;16;6;4;43;6;1;2;160;8;48;6;2;1;5;1;1;255].
+
+Example exA_wire_ok :
+  enc_open DER true 0 exA_ty 2 (VRec [Some (VOid [1;3;6;1;2]); None; None]) true [(exA_in, VRec [Some (VInt 5); Some (VBool true)])]
+  = Ok exA_wire.
+Proof. vmc. Qed.
+
+Example open_resolved_nonvacuous_A :
+  exists chunk w vs',
+    encode DER true 0 exA_in (VRec [Some (VInt 5); Some (VBool true)]) = Ok chunk /\
+    dec_open BER exA_ty 0 2 exA_map [] true exA_wire
+      = Ok (DV (subst_field exA_ty 2 exA_in) (VRec (set_nth 2 (Some w) vs')), []) /\
+    aeq (abs exA_in w) (abs exA_in (VRec [Some (VInt 5); Some (VBool true)])) /\
+    (false = false -> abs exA_in w = abs exA_in (VRec [Some (VInt 5); Some (VBool true)])) /\
+    nth 0 vs' None = Some (VOid [1;3;6;1;2]) /\
+    aeq (abs exA_ty (VRec vs')) (abs exA_ty (VRec (set_nth 2 (Some (VAny chunk)) [Some (VOid [1;3;6;1;2]); None; None]))) /\
+    (false = false -> abs exA_ty (VRec vs') = abs exA_ty (VRec (set_nth 2 (Some (VAny chunk)) [Some (VOid [1;3;6;1;2]); None; None]))).
+Proof.
+  apply (open_resolved DER BER true 0 false (mode_def DER BER true 0 (or_intror eq_refl) eq_refl eq_refl)
+           exA_ty [(Req, TOid); (Opt, TBool); (Opt, TExp (mkTag Ctx false 0) TAny)] 0%nat 2%nat Opt (TExp (mkTag Ctx false 0) TAny) Req TOid);
+    try vmc; try exact I; try (intros E; discriminate E).
+  - right. exists [(Req, TOid); (Opt, TBool); (Opt, TExp (mkTag Ctx false 0) TAny)]. reflexivity.
+  - intros _ _. vmc.
+  - vm_compute. discriminate.
+  - intros chunk H. vm_compute in H. inversion H; subst. vm_compute. discriminate.
+  - left. reflexivity.
+Qed.
+
+(* with decodeOpenTypes off, and with an unmapped governing value, the same record keeps the complete encoding *)
+Example open_raw_nonvacuous_A :
+  exists chunk vs' fv,
+    encode DER true 0 exA_in (VRec [Some (VInt 5); Some (VBool true)]) = Ok chunk /\
+    dec_open BER exA_ty 0 2 exA_map [] false exA_wire = Ok (DV exA_ty (VRec vs'), []) /\
+    nth 2 vs' None = Some fv /\ octets_of fv = Some chunk /\
+    aeq (abs exA_ty (VRec vs')) (abs exA_ty (VRec (set_nth 2 (Some (VAny chunk)) [Some (VOid [1;3;6;1;2]); None; None]))) /\
+    (false = false -> abs exA_ty (VRec vs') = abs exA_ty (VRec (set_nth 2 (Some (VAny chunk)) [Some (VOid [1;3;6;1;2]); None; None]))).
+Proof.
+  apply (open_raw DER BER true 0 false (mode_def DER BER true 0 (or_intror eq_refl) eq_refl eq_refl)
+           exA_ty [(Req, TOid); (Opt, TBool); (Opt, TExp (mkTag Ctx false 0) TAny)] 0%nat 2%nat Opt (TExp (mkTag Ctx false 0) TAny) Req TOid);
+    try vmc; try exact I; try (intros E; discriminate E).
+  - right. exists [(Req, TOid); (Opt, TBool); (Opt, TExp (mkTag Ctx false 0) TAny)]. reflexivity.
+  - intros _ _. vmc.
+  - vm_compute. discriminate.
+  - left. split; reflexivity.
+Qed.
